@@ -249,8 +249,14 @@ Definition note_request (i : nat) (m : mst) (q : oreq) : mst :=
   else
     (* harvest / usage request *)
     let m1 := match find_run (o_run q) (m_runs m) with
-              | Some r => viol_if (negb ((mr_owner r =? o_owner q) && (mr_host r =? o_host q) && (mr_hdr r =? o_hdr q)))
-                                  m V_PARAMS i
+              | Some r =>
+                  (* the license / agent identification must be the run's application's, and the collector host and
+                     headers those of one of THAT application's connections (a late tick for a run that has been
+                     restarted uses the application's current connection) *)
+                  viol_if (negb ((mr_owner r =? o_owner q) &&
+                                 existsb (fun r' => (mr_owner r' =? o_owner q) && (mr_host r' =? o_host q) && (mr_hdr r' =? o_hdr q))
+                                         (m_runs m)))
+                          m V_PARAMS i
               | None => viol m V_PARAMS i        (* a request for a run id the collector never issued *)
               end in
     fold_left (fun mm ct =>
@@ -291,9 +297,6 @@ Definition app_failed_connect (m : mst) (k : Z) : mst :=
   | Some a => w_apps m (set_app (app_with a (ma_last_attempt a) (ma_last_activity a) (ma_terminal a) true) (m_apps m))
   | None => m
   end.
-
-Fixpoint remove_nth {A} (n : nat) (l : list A) : list A :=
-  match l, n with [], _ => [] | _ :: r, O => r | x :: r, S n' => x :: remove_nth n' r end.
 
 Definition has_preconnect (k : Z) (qs : list oreq) : bool :=
   existsb (fun q => (o_kind q =? 0)%N && (o_owner q =? k)) qs.
